@@ -3091,6 +3091,211 @@ def _fuse_projections(tree):
     return count
 
 
+def _record_types(trees):
+    """{name: (fields, {field: default expr})} of the tuple-like record types
+    of the program: NAME = namedtuple('NAME', ...) and class NAME(NamedTuple)
+    at module level (a name defined twice is dropped)."""
+    out, twice = {}, set()
+    for t in trees.values():
+        for st in t.body:
+            rec = None
+            if isinstance(st, ast.Assign) and len(st.targets) == 1 and \
+                    isinstance(st.targets[0], ast.Name) and \
+                    isinstance(st.value, ast.Call) and \
+                    ast.unparse(st.value.func) in (
+                        'namedtuple', 'collections.namedtuple') and \
+                    len(st.value.args) == 2:
+                spec = st.value.args[1]
+                fields = None
+                if isinstance(spec, ast.Constant) and \
+                        isinstance(spec.value, str):
+                    fields = spec.value.replace(',', ' ').split()
+                elif isinstance(spec, (ast.Tuple, ast.List)) and all(
+                        isinstance(e, ast.Constant) for e in spec.elts):
+                    fields = [e.value for e in spec.elts]
+                dflt = []
+                for kw_ in st.value.keywords:
+                    if kw_.arg == 'defaults' and isinstance(
+                            kw_.value, (ast.Tuple, ast.List)):
+                        dflt = list(kw_.value.elts)
+                    else:
+                        fields = None
+                if fields:
+                    rec = (st.targets[0].id, fields, dict(zip(
+                        reversed(fields), reversed(dflt))))
+            elif isinstance(st, ast.ClassDef) and any(
+                    ast.unparse(b) in ('NamedTuple', 'typing.NamedTuple')
+                    for b in st.bases) and not st.decorator_list:
+                fields, dflt = [], {}
+                for b in st.body:
+                    if isinstance(b, ast.AnnAssign) and \
+                            isinstance(b.target, ast.Name):
+                        fields.append(b.target.id)
+                        if b.value is not None:
+                            dflt[b.target.id] = b.value
+                if fields and not any(
+                        isinstance(b, ast.FunctionDef) and
+                        b.name in ('__new__', '__init__') for b in st.body):
+                    rec = (st.name, fields, dflt)
+            if rec is not None:
+                if rec[0] in out:
+                    twice.add(rec[0])
+                out[rec[0]] = (rec[1], rec[2])
+    for nm in twice:
+        out.pop(nm, None)
+    return out
+
+
+def _local_records(trees):
+    """r = Rec(a=x, b=y)           (a local bound once to a record built in
+       ... r.a ... f(*r) ... r[1]   place, x and y not re-bound meanwhile)
+    ->  ... x ... f(x, y) ... y"""
+    recs = _record_types(trees)
+    if not recs:
+        return 0
+    n = 0
+    for t in trees.values():
+        for fn in ast.walk(t):
+            if not isinstance(fn, (ast.FunctionDef, ast.AsyncFunctionDef)):
+                continue
+            stores = {}
+            for x in ast.walk(fn):
+                if isinstance(x, ast.Name) and isinstance(
+                        x.ctx, (ast.Store, ast.Del)):
+                    stores[x.id] = stores.get(x.id, 0) + 1
+            done_one = True
+            while done_one:
+                done_one = False
+                pm = {}
+                for x in ast.walk(fn):
+                    for ch in ast.iter_child_nodes(x):
+                        pm[ch] = x
+                for st in [x for x in ast.walk(fn)
+                           if isinstance(x, ast.Assign)]:
+                    if not (len(st.targets) == 1 and
+                            isinstance(st.targets[0], ast.Name) and
+                            isinstance(st.value, ast.Call) and
+                            isinstance(st.value.func, ast.Name) and
+                            st.value.func.id in recs):
+                        continue
+                    fields, dflt = recs[st.value.func.id]
+                    c = st.value
+                    if any(isinstance(a, ast.Starred) for a in c.args) or \
+                            any(k.arg is None for k in c.keywords) or \
+                            len(c.args) > len(fields):
+                        continue
+                    row = dict(zip(fields, c.args))
+                    bad = False
+                    for k in c.keywords:
+                        if k.arg not in fields or k.arg in row:
+                            bad = True
+                        row[k.arg] = k.value
+                    for f_ in fields:
+                        if f_ not in row and f_ in dflt:
+                            row[f_] = dflt[f_]
+                    if bad or set(row) != set(fields) or any(
+                            isinstance(x, (ast.Call, ast.Yield, ast.Await,
+                                           ast.NamedExpr))
+                            and not (isinstance(x, ast.Call) and
+                                     isinstance(x.func, ast.Attribute) and
+                                     x.func.attr in ('startswith', 'get',
+                                                     'endswith', 'lower'))
+                            for v in row.values() for x in ast.walk(v)):
+                        continue
+                    var = st.targets[0].id
+                    # the uses this binding reaches: those after it in its
+                    # own block, when no other binding of the name is there
+                    blk_ = None
+                    for b_ in ast.walk(fn):
+                        for name in _BLOCKS:
+                            lst = getattr(b_, name, None)
+                            if isinstance(lst, list) and st in lst:
+                                blk_ = lst
+                        for h_ in getattr(b_, 'handlers', []) or []:
+                            if st in h_.body:
+                                blk_ = h_.body
+                    if blk_ is None:
+                        continue
+                    after = blk_[blk_.index(st) + 1:]
+                    if any(isinstance(x, ast.Name) and x.id == var and
+                           isinstance(x.ctx, (ast.Store, ast.Del))
+                           for s2 in after for x in ast.walk(s2)):
+                        continue
+                    uses = [x for s2 in after for x in ast.walk(s2)
+                            if isinstance(x, ast.Name) and x.id == var and
+                            isinstance(x.ctx, ast.Load)]
+                    if stores.get(var) != 1:
+                        # several bindings: every use must be after a
+                        # binding in that binding's own block
+                        every = [x for x in ast.walk(fn)
+                                 if isinstance(x, ast.Name) and x.id == var
+                                 and isinstance(x.ctx, ast.Load)]
+                        owners = 0
+                        for b_ in ast.walk(fn):
+                            for name in list(_BLOCKS) + ['hbody']:
+                                lst = getattr(b_, name, None) \
+                                    if name != 'hbody' else (
+                                        b_.body if isinstance(
+                                            b_, ast.ExceptHandler) else None)
+                                if not isinstance(lst, list):
+                                    continue
+                                for i_, s2 in enumerate(lst):
+                                    if isinstance(s2, ast.Assign) and \
+                                            len(s2.targets) == 1 and \
+                                            isinstance(s2.targets[0],
+                                                       ast.Name) and \
+                                            s2.targets[0].id == var:
+                                        owners += sum(
+                                            1 for s3 in lst[i_ + 1:]
+                                            for x in ast.walk(s3)
+                                            if isinstance(x, ast.Name) and
+                                            x.id == var and
+                                            isinstance(x.ctx, ast.Load))
+                        if owners != len(every):
+                            continue
+                    todo = []
+                    for u in uses:
+                        par = pm.get(u)
+                        if isinstance(par, ast.Attribute) and \
+                                par.value is u and par.attr in row and \
+                                isinstance(par.ctx, ast.Load):
+                            todo.append((par, [row[par.attr]]))
+                        elif isinstance(par, ast.Starred) and \
+                                isinstance(pm.get(par), ast.Call) and \
+                                par in pm[par].args:
+                            todo.append((par, [row[f_] for f_ in fields]))
+                        elif isinstance(par, ast.Subscript) and \
+                                par.value is u and \
+                                isinstance(par.slice, ast.Constant) and \
+                                isinstance(par.slice.value, int) and \
+                                0 <= par.slice.value < len(fields):
+                            todo.append((par,
+                                         [row[fields[par.slice.value]]]))
+                    if not todo or len(todo) != len(uses):
+                        continue
+                    for node, repl in todo:
+                        if isinstance(node, ast.Starred):
+                            call = pm[node]
+                            i = call.args.index(node)
+                            call.args[i:i + 1] = [copy.deepcopy(r)
+                                                  for r in repl]
+                        else:
+                            _Replace(node, copy.deepcopy(repl[0])).visit(fn)
+                    for blk in ast.walk(fn):
+                        for name in _BLOCKS:
+                            lst = getattr(blk, name, None)
+                            if isinstance(lst, list) and st in lst:
+                                lst.remove(st)
+                                if not lst:
+                                    lst.append(_pass(st))
+                    ast.fix_missing_locations(fn)
+                    stores[var] = stores.get(var, 1) - 1 or 1
+                    n += 1
+                    done_one = True
+                    break
+    return n
+
+
 def _memo_own_attribute(trees):
     """@classmethod
        def m(cls):
@@ -3304,6 +3509,7 @@ class _DictFlows(ast.NodeTransformer):
 
 def desugar(trees):
     n = _memo_own_attribute(trees)
+    n += _local_records(trees)
     for t in trees.values():
         df = _DictFlows()
         df.visit(t)
